@@ -528,8 +528,117 @@ class Gen:
         return "\n".join(self.defs + self.lines) + "\n"
 
 
+def gen_limits(rng, debug=True):
+    """C19: height limits around N, reconfiguration at quiescent points, and the misuse stream"""
+    stats = {}
+    def count(k):
+        stats[k] = stats.get(k, 0) + 1
+    N = rng.randint(1, 12)
+    lines = [f"cfg {'debug' if debug else 'release'}", f"maxheight {N}"]
+    defs, acts = [], []
+    nfn = [0]
+    def fn(ar):
+        f = nfn[0]; nfn[0] += 1
+        defs.append(f"fn f{f} lin 7 0 " + " ".join("1" for _ in range(ar)))
+        return f
+    variant = rng.choice(["chain", "chain", "reconf", "bindchain", "cycle1", "cycle2", "nested_fn", "nested_hdl"])
+    count("limits_" + variant)
+    if variant.startswith("nested") and N < 3:
+        N = 3
+        lines[1] = f"maxheight {N}"
+    nodes = 0
+    def var():
+        nonlocal nodes
+        acts.append(f"var {rng.randint(0, 3)}"); nodes += 1; return nodes - 1
+    def chain(src, k):
+        nonlocal nodes
+        last = src
+        for _ in range(k):
+            ar = rng.choice([1, 1, 2])
+            f = fn(ar)
+            acts.append(f"map f{f} " + " ".join(f"n{last}" for _ in range(ar))); nodes += 1; last = nodes - 1
+        return last
+    if variant in ("chain", "reconf"):
+        x = var()
+        k = max(0, N + rng.choice([-2, -1, -1, 0]))       # top height k + 1
+        top = chain(x, k)
+        acts.append(f"observe n{top}")
+        acts.append("stabilise")
+        if variant == "reconf":
+            for _ in range(rng.randint(1, 4)):
+                M = max(1, (k + 1) + rng.choice([-2, -1, 0, 0, 1, 2, 3]))
+                acts.append(f"setmaxheight {M}")
+                if rng.random() < 0.6:
+                    ext = rng.randint(0, 3)
+                    top = chain(top, ext)
+                    k += ext
+                    acts.append(f"observe n{top}")
+                    if rng.random() < 0.5:
+                        acts.append(f"set v0 {rng.randint(0, 3)}")
+                    acts.append("stabilise")
+        else:
+            acts.append(f"set v0 {rng.randint(0, 3)}")
+            acts.append("stabilise")
+            if rng.random() < 0.5:
+                top = chain(top, rng.randint(1, 2))
+                acts.append(f"observe n{top}")
+                acts.append("stabilise")
+        acts.append("dropall")
+    elif variant == "bindchain":
+        x = var(); y = var()
+        k = max(0, N - rng.randint(1, 4))
+        top = chain(y, k)
+        f = fn(1)
+        defs.append(f"body b0 2 ret n{top} | map f{f} n{top} ; ret %0")
+        acts.append(f"bind b0 n{x}"); nodes += 1; m = nodes - 1
+        m = chain(m, rng.randint(0, 2))
+        acts.append(f"observe n{m}")
+        acts.append("stabilise")
+        acts.append(f"set v0 {rng.randint(0, 3)}")
+        acts.append("stabilise")
+        acts.append("dropall")
+    elif variant in ("cycle1", "cycle2"):
+        x = var()
+        if variant == "cycle1":
+            # n1 = bind(x) returning a node computed from n1 itself
+            acts.append(f"bind b0 n{x}"); nodes += 1
+            top = chain(nodes - 1, rng.randint(1, 3))
+            defs.append(f"body b0 1 ret n{top}")
+        else:
+            y = var()
+            acts.append(f"bind b0 n{x}"); nodes += 1; m0 = nodes - 1
+            acts.append(f"bind b1 n{y}"); nodes += 1; m1 = nodes - 1
+            a = chain(m0, 1); b = chain(m1, 1)
+            defs.append(f"body b0 1 ret n{b}"); defs.append(f"body b1 1 ret n{a}")
+            top = a
+        acts.append(f"observe n{top}")
+        acts.append("expectpanic cyclic height-limit")
+        acts.append("stabilise")
+        acts.append("dropall")
+    elif variant == "nested_fn":
+        x = var()
+        f = fn(1)
+        defs.append(f"fneff f{f} stab")
+        acts.append(f"map f{f} n{x}"); nodes += 1
+        acts.append(f"observe n{nodes - 1}")
+        acts.append("expectpanic status")
+        acts.append("stabilise")
+        acts.append("dropall")
+    else:
+        x = var()
+        defs.append("hdl h5 stab")
+        acts.append(f"observe n{x}")
+        acts.append("subscribe o0 h5")
+        acts.append("expectpanic status")
+        acts.append("stabilise")
+        acts.append("dropall")
+    return "\n".join(lines + defs + acts) + "\n", stats
+
+
 def gen_history(seed, profile="general", n_actions=None, c01_safe=False, debug=True):
     rng = random.Random(seed)
+    if profile == "limits":
+        return gen_limits(rng, debug)
     g = Gen(rng, profile, c01_safe)
     if n_actions is None:
         n_actions = rng.choice([8, 15, 25, 40, 60])
